@@ -51,6 +51,9 @@ COMMANDS = [
     # the same commands run from SOMEWHERE ELSE with the config directory given explicitly: nothing may appear in that other directory either
     ['up', '-q', '@CONFIG'], ['up', '--format', 'summary', '@CONFIG'], ['up', '-q', '--format', 'json', '@CONFIG'], ['discover', '@CONFIG'], ['diag', '@CONFIG'], ['explain', 'Netflix', '@CONFIG'],
     ['up', '--migrate', '-q', '@CONFIG'],
+    # the config path as shell completion leaves it (trailing separator), absolute from elsewhere and relative from the budget folder
+    ['up', '-q', '@CONFIG/'], ['up', '-q', '--no-embedded-html', '@CONFIG/'], ['discover', '@CONFIG/'], ['up', '-q', '@RELCONFIG/'], ['up', '-q', '--format', 'json', '@RELCONFIG/'], ['explain', 'Netflix', '@RELCONFIG/'],
+    ['up', '-q', './@RELCONFIG'],
     ['run', '-q', '--format', 'json'], ['run', '--migrate', '-q'], ['explain', '--view', 'Subs'], ['up', '-q', '--only', 'subs'], ['up', '-vv', '--format', 'summary'],
 ]
 
@@ -193,7 +196,8 @@ class Machine(RuleBasedStateMachine):
 
 def step(folder, cmd, case):
     base = folder.base
-    argv = [a.replace('@OUT', os.path.join(base, 'output')).replace('@DATA', os.path.join(base, 'data', 'bank.csv')) for a in cmd]
+    rel = 'config' if folder.shape['layout'] == 'old' else 'tally/config'
+    argv = [a.replace('@OUT', os.path.join(base, 'output')).replace('@DATA', os.path.join(base, 'data', 'bank.csv')).replace('@RELCONFIG', rel) for a in cmd]
     if any('@OUT' in a for a in cmd):
         os.makedirs(os.path.join(base, 'output'), exist_ok=True)
     before = folder.bd.snapshot()
